@@ -241,6 +241,10 @@ DOCUMENTED_CLASS = {
 }
 
 
+TIME_LIMITED = {"RubiksCube", "SlidingTilePuzzle", "Tetris", "Cleaner", "Connector", "LevelBasedForaging", "Maze", "MMST", "PacMan",
+                "RobotWarehouse", "Snake", "Sokoban"}
+
+
 def documented_env(id_: str) -> Any:
     """The environment the documentation describes for a shipped id, constructed directly (not through the registry)."""
     import os
@@ -277,7 +281,16 @@ def shipped_check(stats: Stats, seed: int) -> None:
     rng = util.sub_rng(seed, "c18shipped")
     for id_ in ids:
         try:
+            if DOCUMENTED_CLASS.get(id_) in TIME_LIMITED:
+                # a caller's override in one make() must not leak into later plain make() calls - neither through the
+                # registry entry nor through objects (generators) the registered kwargs hold
+                e0 = jumanji.make(id_, time_limit=3)
+                if int(getattr(e0, "time_limit", 3)) != 3:
+                    raise Violation("C18", "registry", "shipped", "override_not_passed_to_constructor", f"make({id_!r}, time_limit=3).time_limit == {e0.time_limit}")
+                stats.check("shipped_ids_made_with_override_first")
             e1, e2 = jumanji.make(id_), jumanji.make(id_)
+        except Violation:
+            raise
         except Exception as e:  # noqa: BLE001
             raise Violation("C18", "registry", "shipped", "shipped_id_does_not_instantiate", f"make({id_!r}) raised {type(e).__name__}: {str(e)[:200]}")
         if id_.startswith("Sokoban"):
